@@ -25,11 +25,12 @@ def template_value_preserved : Prop :=
   ∀ (strict : Bool) (s : List Nat), s.head? = some 96 → wfLit strict s →
     decodeLit strict (templateLit s) = decodeLit strict s
 
-/-- proved for every literal whose body contains no `\u…` escape and no backslash followed by a digit
-    (`Guard`: decidable, closed under suffixes).  Covered without restriction: every quote choice incl. the
-    switch to a template, quote and `${` escaping, `\xHH` (decoded, re-escaped or kept), line continuations, `\n` `\r`
-    `\t` `\b` `\f` `\v`, identity escapes, raw UTF-8, raw CR / LF / CRLF in templates, the `</script>` guard.
-    The excluded escapes are covered by the exhaustive correspondence + V8 oracle of the harness, not by this theorem. -/
+/-- proved for every literal whose body contains no backslash followed by a digit (`Guard`: decidable, closed under
+    suffixes) — that is, everything except `\0`, the legacy octal escapes and `\8` `\9`.  Covered: every quote choice
+    incl. the switch to a template, quote and `${` escaping, `\xHH`, `\uHHHH` and `\u{…}` (decoded to UTF-8, re-escaped
+    or kept), line continuations, `\n` `\r` `\t` `\b` `\f` `\v`, identity escapes, raw UTF-8, raw CR / LF / CRLF in
+    templates, the `</script>` guard.  The digit escapes are covered by the exhaustive correspondence + V8 oracle of
+    the harness, not by this theorem. -/
 theorem string_value_preserved_partial (strict allowTemplate : Bool) (s : List Nat)
     (hq : s.head? = some 39 ∨ s.head? = some 34) (hw : wfLit strict s)
     (hg : Guard ((s.drop 1).dropLast) = true) :
